@@ -196,12 +196,13 @@ def run(ctx, rep):
                 rep.underivable(key, "used.epus_t and used.epus_by_srv_t are sums over component lines", construct=where)
             else:
                 bad = None
-                lam_ids = set(l.id for _it, l in tot)
-                for sname, ss in parts:
-                    for _it, l in ss:
-                        if l.id not in lam_ids:
-                            bad = "the summand of service %s differs from the summand of the total" % sname
                 for cls_name, comp in component_classes(ci):
+                    # what a counted line contributes: the same term in the total and in its service (on the representative)
+                    vt = set(tm.apply_lam(l, [comp]).id for it, l in tot if gate_of(it, comp) is tm.TRUE)
+                    for sname, ss in parts:
+                        for it, l in ss:
+                            if gate_of(it, comp) is tm.TRUE and tm.apply_lam(l, [comp]).id not in vt:
+                                bad = bad or "a %s line contributes differently to service %s and to the total" % (cls_name, sname)
                     def count(sm):
                         n = 0
                         for it, _l in sm:
